@@ -45,6 +45,7 @@ type COp struct {
 }
 
 type C14Spec struct {
+	Knob    string      `json:"knob,omitempty"` // "zero": the program has set MaxTrials = 0 before the clients start
 	Mode    string      `json:"mode"` // controlled | race
 	Shared  []PoolEntry `json:"shared"`
 	Clients [][]COp     `json:"clients"`
@@ -102,6 +103,9 @@ func genC14(r *Rng, seed uint64, mode string) *C14Spec {
 		s.Clients = append(s.Clients, ops)
 	}
 	s.Sched = SchedSpec{Policy: pick(r, schedPolicies), Seed: mix(seed, "sched"), PCTd: 1 + r.Intn(3)}
+	if r.Chance(0.08) {
+		s.Knob = "zero"
+	}
 	return s
 }
 
@@ -218,7 +222,23 @@ func checkValid(e *liveEntry, res OpResult) (bool, string) {
 	return true, ""
 }
 
+func withC14Knob(s *C14Spec, f func()) {
+	if s.Knob == "zero" {
+		old := spg.MaxTrials
+		spg.MaxTrials = 0
+		defer func() { spg.MaxTrials = old }()
+	}
+	f()
+}
+
 func runC14Controlled(c *Ctx, s *C14Spec) {
+	withC14Knob(s, func() { runC14ControlledInner(c, s) })
+	if s.Knob == "zero" && spg.MaxTrials != 200 && spg.MaxTrials != 0 {
+		// informational only: knob restoration is the harness's own business
+	}
+}
+
+func runC14ControlledInner(c *Ctx, s *C14Spec) {
 	curOrders = s.Orders
 	live := buildShared(s.Shared)
 	if live == nil {
@@ -342,7 +362,12 @@ func raceChildMain(args []string) int {
 
 // raceEpisode runs the clients unsynchronised on the shared values with the
 // real OS reader and no hooks. Returns a non-empty string if a result is invalid.
-func raceEpisode(s *C14Spec) string {
+func raceEpisode(s *C14Spec) (why string) {
+	withC14Knob(s, func() { why = raceEpisodeInner(s) })
+	return
+}
+
+func raceEpisodeInner(s *C14Spec) string {
 	live := buildShared(s.Shared)
 	if live == nil {
 		return ""
